@@ -252,6 +252,13 @@ def call_external(self, st, name, args, kwargs, node):
     if stub is not None:
         return stub(self, st, args, kwargs, node)
     last = name.split(".")[-1]
+    if name == "inspect.isgenerator" and len(args) == 1 and not kwargs and not isinstance(args[0], Top):
+        return [(st, "val", isinstance(args[0], Ref) and _lazyiter.is_generator_object(st, args[0]))]
+    if name == "inspect.isgeneratorfunction" and len(args) == 1 and not kwargs and isinstance(args[0], (FuncVal, BoundMeth)):
+        fn = args[0].func
+        if fn is not None:
+            from .absint import _has_own_yield
+            return [(st, "val", bool(_has_own_yield(fn.node.body)))]
     if name in ("six.iteritems", "six.iterkeys", "six.itervalues", "six.viewitems", "six.viewkeys", "six.viewvalues") and len(args) == 1 \
             and not kwargs and not isinstance(args[0], Top):
         # six.iteritems(d) is d.items() (iterated once by every caller in this code base)
